@@ -239,7 +239,7 @@ def c17_index(run, cnt):
     NV = root.data["notional_value"].to_numpy(dtype=float)
     n = mon2.last_row(root) + 1
     for i in range(n):
-        fl = tl.flows(i)
+        fl = tl.flows(i, external_only=True)
         pv, pp, pn = (V[i - 1], P[i - 1], NV[i - 1]) if i > 0 else (0.0, 100.0, 0.0)
         pnl = V[i] - pv - fl
         if abs(pn) > 1e-16:
